@@ -67,9 +67,68 @@ def build_exe(stage):
             w = os.path.join(stage.work, "c57_weak_%s.o" % name)
             subprocess.run(["objcopy", "--weaken", stage.path("src/tests/%s.o" % name), w], check=True)
             weak.append(w)
-        built["c57"] = stage.link_like("tests/testRock", objs + weak, os.path.join(stage.work, "c57"),
-                                       drop=("tests/stub_store_rebuild.o", "tests/stub_store_client.o"))
+        out = os.path.join(stage.work, "c57")
+        drop = ("tests/stub_store_rebuild.o", "tests/stub_store_client.o")
+        try:
+            fast_link(stage, "tests/testRock", objs + weak, out, drop)
+        except Exception as e:   # noqa: fall back to the tree's own libtool recipe (minutes under load)
+            from vf.util import log
+            log("C57: libtool-free link failed (%s); using libtool" % str(e)[-300:])
+            stage.link_like("tests/testRock", objs + weak, out, drop=drop)
+        built["c57"] = out
     return built["c57"]
+
+
+def la_expand(src_dir, la, seen, libs):
+    """static archive of a libtool convenience library + the -l flags it depends on"""
+    path = os.path.normpath(os.path.join(src_dir, la))
+    if path in seen:
+        return []
+    seen.add(path)
+    d, base = os.path.split(la)
+    out = [os.path.join(d or ".", ".libs", base[:-3] + ".a")]
+    try:
+        text = open(path).read()
+    except OSError:
+        return out
+    m = re.search(r"^dependency_libs='([^']*)'", text, re.M)
+    for tk in (m.group(1).split() if m else []):
+        if tk.endswith(".la"):
+            rel = os.path.relpath(tk, src_dir) if os.path.isabs(tk) else tk
+            out += la_expand(src_dir, rel, seen, libs)
+        elif tk.startswith("-l") and tk not in libs:
+            libs.append(tk)
+    return out
+
+
+def fast_link(stage, test, objs, out, drop):
+    """the link line of tests/testRock without libtool: .la -> .libs/*.a (+ their dependency -l flags)"""
+    import shlex, subprocess
+    toks = shlex.split(stage.link_recipe(test))
+    k = toks.index("--mode=link")
+    toks = toks[k + 1:]
+    src_dir = stage.path("src")
+    res, libs, seen = [], [], set()
+    skip = False
+    for tk in toks:
+        if skip:
+            skip = False
+            continue
+        if tk == "-o":
+            res += ["-o", out]
+            skip = True
+        elif tk == test + ".o":
+            res += list(objs)
+        elif tk in drop or tk == "-Werror":
+            continue
+        elif tk.endswith(".la"):
+            res += la_expand(src_dir, tk, seen, libs)
+        else:
+            res.append(tk)
+    res += libs + ["-fsanitize=address,undefined"]
+    r = subprocess.run(res, cwd=src_dir, capture_output=True, text=True)
+    if r.returncode != 0:
+        raise RuntimeError(r.stderr[-2000:])
 
 
 class Parallel:
